@@ -73,11 +73,11 @@ def _tc(f):
     return [f // (30 * 3600), (f // (30 * 60)) % 60, (f // 30) % 60, f % 30]
 
 
-def popon_stream(rng, buffers, adjacent):
+def popon_stream(rng, buffers, adjacent, rows_override=None):
     lines = []
     f = 300
     for lens in buffers:
-        rows = list(range(15 - len(lens) + 1, 16)) if adjacent else [2, 8, 14][:len(lens)]
+        rows = rows_override or (list(range(15 - len(lens) + 1, 16)) if adjacent else [2, 8, 14][:len(lens)])
         syms = [{"k": "ENM"}, {"k": "RCL"}]
         for r, n in zip(rows, lens):
             syms.append({"k": "PAC", "r": r, "c": 0, "i": False})
@@ -168,6 +168,10 @@ def inputs(ctx):
             ins.append({"id": "o%d" % n, "lines": popon_stream(rng, [list(lens)], adjacent), "doubled": n % 2 == 0, "sim": True})
             n += 1
         ins.append({"id": "o%d" % n, "lines": roll_stream(rng, lens, 2, paint=True), "doubled": n % 2 == 0, "sim": True})
+        n += 1
+    # a row addressed twice in one buffer (the captions it yields share start time and screen row)
+    for lens, rows in (([36, 5, 5], [15, 2, 15]), ([5, 5, 36], [15, 2, 15]), ([5, 36, 5, 34], [3, 9, 3, 9])):
+        ins.append({"id": "w%d" % n, "lines": popon_stream(rng, [list(lens)], False, rows_override=rows), "doubled": n % 2 == 0})
         n += 1
     for k in range(300 if ctx.quick else 60000):
         mode = rng.choice(["pop", "pop", "roll", "paint"])
